@@ -100,7 +100,7 @@ Encloser(e) == Strip(e).op \in {"opt", "star", "plus", "join", "and", "not", "sk
 RECURSIVE OddReturn(_)
 OddReturn(e) == CASE e.op \in {"void", "and"} -> TRUE               \* the interpreter returns () / the inner value, the AST gets nothing
                   [] e.op \in Nary -> \E i \in 1..Len(e.es) : OddReturn(e.es[i])
-                  [] e.op \in {"group", "opt", "named", "namedlist", "ovr", "ovrlist"} -> OddReturn(e.e)
+                  [] e.op \in {"group", "opt", "named", "namedlist", "ovr", "ovrlist", "skipto"} -> OddReturn(e.e)
                   [] OTHER -> FALSE
 RECURSIVE Unspec(_)
 Unspec(e) ==
